@@ -1094,6 +1094,27 @@ where
             present::<B, P>(rec, st, &s.text, &km.unseal, &a2, m, v, json!({"cls":"assertion-replaced","field":"assertion-end","sweep":total}));
         }
     }
+    // the same for tokens of a payload encoding with a suffix (header one byte longer): every footer length up to 140, the last
+    // footer byte altered
+    for fl in 1..=140usize {
+        if slow && fl % 8 != 7 {
+            continue;
+        }
+        if fl % 16 == 1 || slow {
+            rec.emit(json!({"ev":"Reset","scenario":format!("tamper-sweep-suffix-{}-{}-{}", B::NAME, purpose, fl)}));
+            learn(rec, purpose, km);
+        }
+        let (claims, footer) = (rng.bytes(1 + fl % 5), rng.bytes(fl));
+        let aad: Vec<u8> = if has_aad && fl % 2 == 0 { rng.bytes(3) } else { vec![] };
+        let Some(s) = seal_lib_fc::<B, P, SpyFooter, true>(rec, st, &km.seal, &claims, &footer, &aad, (false, false), None) else { continue };
+        present_fc::<B, P, SpyFooter, true>(rec, st, &s.text, &km.unseal, &aad, DecodeMode::Ok, true, json!({"cls":"identity","sweep_suffix":fl}));
+        let mut g = s.footer.clone();
+        g[fl - 1] ^= 1 << (fl % 8);
+        let hc = header_c::<B, P, true>();
+        let text = format!("{hc}{}.{}", crate::b64::enc(&s.payload), crate::b64::enc(&g));
+        let (m, v) = next_mode(true);
+        present_fc::<B, P, SpyFooter, true>(rec, st, &text, &km.unseal, &aad, m, v, json!({"cls":"bitflip","field":"footer-end","sweep_suffix":fl}));
+    }
 }
 
 fn relabel<B: Backend, P: Purpose>(rec: &mut Recorder, st: &mut Stats, s: &Sealed, km: &KeyMat, aad: &[u8], rng: &mut Prng)
